@@ -8,6 +8,7 @@ clusters are encoded.  The rune-level statement is tied by the relational run of
 -/
 import RosedVerif.Spec.Naturality
 import RosedVerif.Model.BridgeWrap
+import RosedVerif.Model.BridgeAlign
 namespace RosedVerif.Props
 open RosedVerif.Spec
 variable {α β : Type} {tk : Toks α} {tk' : Toks β} {g : α → β}
@@ -72,5 +73,30 @@ theorem C03_collapse_code_points {V V' : List (List Int)}
     obtain ⟨u, hu, rfl⟩ := List.mem_map.1 h
     exact hg u (ht u hu)
   rw [collapseSpace_bridge_spec hV' hsp' hspTail' (toks.map g) ht', collapse_map hmap]
+
+open RosedVerif in
+/-- the same for AlignLineLeft / Right / Center: padding and stripping positions are identical for a
+text and its cluster-for-cluster substitution, on code points with the real segmentation -/
+theorem C03_align_code_points {V V' : List (List Int)}
+    (hV : VocabStable V = true) (hV' : VocabStable V' = true)
+    (g : List Int → List Int) (hg : ∀ t ∈ V, g t ∈ V')
+    (hws : ∀ t, cxB.isSpace (g t) = cxB.isSpace t) (hgsp : g [0x20] = [0x20]) (hghy : g [0x2D] = [0x2D])
+    (toks : List (List Int)) (ht : ∀ t ∈ toks, t ∈ V) (w : Int) :
+    (∃ r : List (List Int), RosedVerif.alignLeft cxA toks.flatten w = r.flatten ∧
+          RosedVerif.alignLeft cxA (toks.map g).flatten w = (r.map g).flatten) ∧
+    (∃ r : List (List Int), RosedVerif.alignRight cxA toks.flatten w = r.flatten ∧
+          RosedVerif.alignRight cxA (toks.map g).flatten w = (r.map g).flatten) ∧
+    (∃ r : List (List Int), RosedVerif.alignCenter cxA toks.flatten w = r.flatten ∧
+          RosedVerif.alignCenter cxA (toks.map g).flatten w = (r.map g).flatten) := by
+  have hmap : TokMap ⟨cxB.isSpace, cxB.sp, cxB.hy⟩ ⟨cxB.isSpace, cxB.sp, cxB.hy⟩ g := ⟨hws, hgsp, hghy⟩
+  have ht' : ∀ t ∈ toks.map g, t ∈ V' := by
+    intro t h
+    obtain ⟨u, hu, rfl⟩ := List.mem_map.1 h
+    exact hg u (ht u hu)
+  refine ⟨⟨_, alignLeft_bridge_spec hV toks ht w, ?_⟩, ⟨_, alignRight_bridge_spec hV toks ht w, ?_⟩,
+    ⟨_, alignCenter_bridge_spec hV toks ht w, ?_⟩⟩
+  · rw [alignLeft_bridge_spec hV' (toks.map g) ht' w, alignLeft_map hmap]
+  · rw [alignRight_bridge_spec hV' (toks.map g) ht' w, alignRight_map hmap]
+  · rw [alignCenter_bridge_spec hV' (toks.map g) ht' w, alignCenter_map hmap]
 
 end RosedVerif.Props
